@@ -354,6 +354,22 @@ func VP_C03_bind() {
 	vpAssert("non-operator-name-left-alone", stillOp)
 	_, stillOp2 := proc[4].(Operator)
 	vpAssert("undefined-name-left-alone", stillOp2)
+	// names are looked up through the dictionary stack at bind time: a shadowed operator name is
+	// not an operator any more, an alias of an operator is
+	i2 := NewInterpreter()
+	i2.MaxOps = 200
+	i2.UserDict["sub"] = Procedure{Operator("pop")}
+	i2.UserDict["plus"] = i2.SystemDict["add"]
+	p2 := Procedure{Integer(5), Integer(3), Operator("sub"), Integer(1), Operator("plus")}
+	i2.Stack = append(i2.Stack, p2)
+	e2 := vpRunOp(i2, "bind")
+	_, shadowBound := p2[2].(builtin)
+	_, aliasBound := p2[4].(builtin)
+	vpAssert("shadowed-operator-name-not-bound", e2 == nil && !shadowBound)
+	vpAssert("alias-of-operator-bound", aliasBound)
+	i2.Stack = i2.Stack[:0]
+	e3 := i2.executeOne(p2, true)
+	vpAssert("bound-procedure-uses-the-definitions-of-bind-time", e3 == nil && vpStackIs(i2, Integer(6)))
 	// later redefinition does not affect the bound procedure
 	intp.UserDict["add"] = Procedure{Operator("pop"), Operator("pop"), Integer(0)}
 	intp.Stack = intp.Stack[:0]
